@@ -561,6 +561,49 @@ def run_chains(k_operands: List[int], stats: dict, viols: List[Violation]):
 
 GRID = (-2, -1, 0, 1, 2, 3)
 
+BUILT_PAIRS = [("t - u", "u - t"), ("t // 2", "2 // t"), ("2 * t", "3 * t"), ("t - 1", "1 - t"), ("abs(t)", "-t"), ("max(t, u)", "min(t, u)"),
+               ("t ** 2", "2 ** t"), ("t if t > u else u", "u if t > u else t"), ("t + u", "t * u")]
+
+
+def built_slice() -> Tuple[int, List[Violation]]:
+    """The signature a BUILT sweep class reports and the values it produces belong together: after the caller edits the mapping it
+    passed to the factory, the class still reports the signature of the expression it evaluates (equal signatures => equal values)."""
+    import verif_lib
+
+    verif_lib.register()
+    from semantiva.data_processors.parametric_sweep_factory import ParametricSweepFactory, SequenceSpec
+    from semantiva.examples.test_utils import FloatDataCollection
+    from verif_lib import components as VC
+
+    def build(exprs):
+        return ParametricSweepFactory.create(element=VC.VSrc, element_kind="DataSource", collection_output=FloatDataCollection,
+                                             vars={"t": SequenceSpec([1.0, 3.0]), "u": SequenceSpec([2.0])}, parametric_expressions=exprs)
+
+    def sig(cls):
+        return cls.get_metadata()["preprocessor"]["param_expressions"]["value"]["sig"]["ast"]
+
+    def vals(cls):
+        return [x.data for x in cls.get_data().data]
+
+    viols: List[Violation] = []
+    n = 0
+    for e1, e2 in BUILT_PAIRS + [(b, a) for a, b in BUILT_PAIRS]:
+        exprs = {"value": e1}
+        cls = build(exprs)
+        s0, v0 = sig(cls), vals(cls)
+        exprs["value"] = e2  # the caller goes on to edit ITS OWN mapping (a parameter-study loop re-using one dict)
+        s1, v1 = sig(cls), vals(cls)
+        fresh = build({"value": e2})
+        sf, vf = sig(fresh), vals(fresh)
+        n += 3
+        if s1 != s0 or v1 != v0:
+            viols.append(Violation("built-sweep-signature-follows-callers-mapping",
+                                   f"a sweep built for {e1!r} reports signature {s1[:60]} / values {v1} after the caller changed its mapping to {e2!r} (was {s0[:60]} / {v0})",
+                                   {"kind": "built", "a": e1, "b": e2}))
+        elif s1 == sf and v1 != vf:
+            viols.append(Violation("unsound-signature", f"two built sweeps report one signature and produce {v1} vs {vf}", {"kind": "built", "a": e1, "b": e2}))
+    return n, viols
+
 
 def check(tier: str, seed: int) -> Result:
     stats = {"families": {}, "evaluations": 0, "nontrivial": 0, "samples": []}
@@ -582,6 +625,10 @@ def check(tier: str, seed: int) -> Result:
         run_family("ac<=4", ac_only, 4, stats, viols)
         run_family("ac<=5(no unary)", Alphabet(["x", "y", "z"], [2], ["+", "*"], [], [], False, GRID), 5, stats, viols)
         run_chains([2, 3, 4], stats, viols)
+    nb, vb = built_slice()
+    viols.extend(vb)
+    stats["evaluations"] += nb
+    stats["built_sweep_classes_checked"] = nb
     cov = {
         "evaluations": stats["evaluations"],
         "distinct_nontrivial": stats["nontrivial"],
@@ -603,6 +650,8 @@ def check(tier: str, seed: int) -> Result:
 
 
 def replay(case) -> List[Violation]:
+    if case.get("kind") == "built":
+        return [v for v in built_slice()[1] if v.case["a"] == case["a"] and v.case["b"] == case["b"]]
     a, b = case["a"], case["b"]
     sa, sb = impl_sig(a), impl_sig(b)
     vars_ = tuple(case.get("vars") or ("x", "y", "z"))
